@@ -357,7 +357,11 @@ InputOrderOK(q, v, a) ==
         [] q.m = "first"      -> IF Len(v.kids) = 0 THEN ~a.err /\ a.out = <<>> ELSE ~a.err /\ SeqFits(<<ToValue(v.kids[1])>>, a.out)
         [] OTHER              -> TRUE
 
-Accept(q, v, a, b) == Documented(q, v, a, b) /\ ToValueOK(q, v, b) /\ InputOrderOK(q, v, a)
+\*  - "there can be keys hidden from keys and []" (doc/usage.md): on an object-like decode value the underscore keys exist
+\*    (has answers true) although keys does not list them
+ExtHasOK(q, v, a) == (q.m = "has_s" /\ q.sa \in ExtKeys /\ IsObjectLike(v)) => (~a.err /\ a.out = <<JTrue>>)
+
+Accept(q, v, a, b) == Documented(q, v, a, b) /\ ToValueOK(q, v, b) /\ InputOrderOK(q, v, a) /\ ExtHasOK(q, v, a)
 
 \* classification of a rejected observation: query shape, difference class, value class
 VClass(v) ==
@@ -370,7 +374,9 @@ VClass(v) ==
 Flat(r) == [err |-> r.err, out |-> r.out]
 DiffClass(q, v, a, b) ==
     IF ~ToValueOK(q, v, b) THEN "tovalue"
-    ELSE IF Documented(q, v, a, b) THEN "input_order"
+    ELSE IF Documented(q, v, a, b) THEN (IF InputOrderOK(q, v, a) THEN "underscore_key_missing" ELSE "input_order")
+    ELSE IF Rel(q, v) = "nullkey" THEN "null_on_non_object"
+    ELSE IF Rel(q, v) = "ext" THEN "underscore_key_unreadable"
     ELSE IF HasAnyObj(v) /\ q.ord # "none" /\ a.err = b.err THEN "order_anyobj"     \* gojqx.Object walks a Go map
     ELSE IF a.err /\ ~b.err THEN "dv_error"
     ELSE IF b.err /\ ~a.err THEN "jv_error"
